@@ -14,15 +14,16 @@ fn corpus() -> Vec<&'static str> {
          "\"\u{3bb}x\"", "\u{3bb}sym", "?a ?\\C-a", "\"\\u03bb\\x41\"", "(1 (2 (3 (4))))", "a\rb\x0cc", "#!fold-case x", "|a b|", "(a .b)", "(a .;c\n)", "(a .;", "(a .[b])", "(a .]", "(.;c\n a)", "(a +;c\n)", "(a -[b])", "1+ -", "(",
          "\"abc", "#\\", "#(1 2", "(a . )", ")", "#u8(300)", "1e", "#x", "a)b",
          "\"\u{e9}\\x01\"", "\"\u{e9}\\xff\"", "\"\\x01\u{e9}\"", "\"\u{e9}\\001\"", "\"a\u{e9}\\nb\"", "\"\\u00e9\\xff\"", "\"\u{e9}\\x01\u{e9}\"", "\"\\351\u{e9}\"", "\"\u{e9}\\^A\"", "\"\\M-a \u{e9}\"", "\"\u{3bb}\\n\"", "\"\u{3bb}\\x41\"", "(\"\u{1f600}\\101\" \"\\x80\")",
-         "#\\newline #\\tab #\\backspace #\\nul #\\delete #\\alarm #\\return #\\escape", "#\\tab", "#\\\u{3bb} ?\u{3bb}", "\u{e9}t\u{e9} (\u{1f600})"]
+         "#\\newline #\\tab #\\backspace #\\nul #\\delete #\\alarm #\\return #\\escape", "#\\tab", "#\\\u{3bb} ?\u{3bb}", "\u{e9}t\u{e9} (\u{1f600})",
+         "(18446744073709551616)", "184467440737095516160 x", "18446744073709551616.5", "#xFFFFFFFFFFFFFFFFF y", "(1 99999999999999999999999e3 2)", "-18446744073709551617", "(123456789012345678901234567890 . a)"]
 }
 
-struct Sched { data: Vec<u8>, pos: usize, chunk: usize, interrupt_every: usize, calls: usize, fail_at: Option<usize> }
+struct Sched { data: Vec<u8>, pos: usize, chunk: usize, interrupt_every: usize, calls: usize, fail_at: Option<usize>, fail_kind: io::ErrorKind }
 impl Read for Sched {
     fn read(&mut self, buf: &mut [u8]) -> io::Result<usize> {
         self.calls += 1;
         if self.interrupt_every > 0 && self.calls % self.interrupt_every == 0 { return Err(io::Error::new(io::ErrorKind::Interrupted, "again")); }
-        if let Some(k) = self.fail_at { if self.pos >= k { return Err(io::Error::new(io::ErrorKind::ConnectionReset, "injected")); } }
+        if let Some(k) = self.fail_at { if self.pos >= k { return Err(io::Error::new(self.fail_kind, "injected")); } }
         let mut n = self.chunk.min(buf.len()).min(self.data.len() - self.pos);
         if let Some(k) = self.fail_at { n = n.min(k - self.pos); }
         buf[..n].copy_from_slice(&self.data[self.pos..self.pos + n]);
@@ -70,7 +71,7 @@ fn check(case: &str) -> Option<String> {
             let sl = show(&all(parse::Parser::from_slice_custom(text.as_bytes(), opts(oi))));
             if sl != full { return Some(format!("{:?}: str gives {}, slice gives {}", text, full, sl)); }
             for (chunk, intr) in [(1usize, 0usize), (1, 2), (2, 3), (3, 0), (64, 0)] {
-                let rd = Sched { data: text.as_bytes().to_vec(), pos: 0, chunk, interrupt_every: intr, calls: 0, fail_at: None };
+                let rd = Sched { data: text.as_bytes().to_vec(), pos: 0, chunk, interrupt_every: intr, calls: 0, fail_at: None, fail_kind: io::ErrorKind::Other };
                 let io = show(&all(parse::Parser::from_reader_custom(rd, opts(oi))));
                 if io != full { return Some(format!("{:?}: str gives {}, reader (chunk {}, Interrupted every {}) gives {}", text, full, chunk, intr, io)); }
             }
@@ -78,9 +79,11 @@ fn check(case: &str) -> Option<String> {
         }
         "fail" | "failx" => {
             for k in 0..=text.len() {
-                for (chunk, intr) in [(1usize, 0usize), (2, 3)] {
-                    let rd = Sched { data: text.as_bytes().to_vec(), pos: 0, chunk, interrupt_every: intr, calls: 0, fail_at: Some(k) };
+                for (chunk, intr, kind) in [(1usize, 0usize, io::ErrorKind::ConnectionReset), (2, 3, io::ErrorKind::UnexpectedEof), (1, 0, io::ErrorKind::UnexpectedEof), (3, 0, io::ErrorKind::InvalidData), (2, 0, io::ErrorKind::WouldBlock), (1, 0, io::ErrorKind::TimedOut), (2, 0, io::ErrorKind::Other)] {
+                    let rd = Sched { data: text.as_bytes().to_vec(), pos: 0, chunk, interrupt_every: intr, calls: 0, fail_at: Some(k), fail_kind: kind };
                     let r = all(parse::Parser::from_reader_custom(rd, opts(oi)));
+                    if let Err(e) = &r { if e.classify() == parse::error::Category::Io { let rd2 = Sched { data: text.as_bytes().to_vec(), pos: 0, chunk, interrupt_every: intr, calls: 0, fail_at: Some(k), fail_kind: kind };
+                        if let Err(e2) = all(parse::Parser::from_reader_custom(rd2, opts(oi))) { let got = io::Error::from(e2).kind(); if got != kind { return Some(format!("{:?} with a read error of kind {:?} at offset {}: reported as io::Error of kind {:?}", text, kind, k, got)); } } } }
                     let ok = match &r { Err(e) => e.classify() == parse::error::Category::Io || show(&r) == full, Ok(_) => show(&r) == full };
                     let is_io = matches!(&r, Err(e) if e.classify() == parse::error::Category::Io);
                     // a stream that fails before end of input can never look like a complete, successful read of all items
